@@ -139,13 +139,13 @@ KEY_OF = {  # (kind, n, m) -> concrete configurations to record traces from
 }
 
 
-def trace_cfg(kind, n, m, nr, mant):
-    return cfg(constants={"Kind": kind, "N": n, "M": m, "NR": nr, "Mant": mant}, invariants=["Done"],
-               postcondition="Accepted")
+def trace_cfg(kind, n, m, nr, mant, inner=None):
+    return cfg(constants={"Kind": kind, "N": n, "M": m, "NR": nr, "Mant": mant},
+               overrides=({"Inner": INNER[inner]} if inner else None), invariants=["Done"], postcondition="Accepted")
 
 
-def validate_trace(path, kind, n, m, nr, mant, name):
-    res = run_tlc("TraceCalc.tla", trace_cfg(kind, n, m, nr, mant), name, workers=1, timeout=600,
+def validate_trace(path, kind, n, m, nr, mant, name, inner=None):
+    res = run_tlc("TraceCalcN.tla" if inner else "TraceCalc.tla", trace_cfg(kind, n, m, nr, mant, inner), name, workers=1, timeout=600,
                   env_extra={"TRACE": path}, java_opts="-Xss1g")
     done = [b for t, b in res.behaviours() if t == "TRACE-DONE"]
     rej = [b for t, b in res.behaviours() if t == "TRACE-REJECTED"]
@@ -161,7 +161,10 @@ def corrupt_trace(path, out):
         return None
     i = cand[len(cand) // 2]
     e = json.loads(lines[i])
-    e["post"]["re"][0] += e["post"]["re"][1]
+    re = e["post"]["re"]
+    while isinstance(re, dict):          # nested types: the innermost real part
+        re = re["re"]
+    re[0] += re[1]
     lines[i] = json.dumps(e, separators=(",", ":"))
     open(out, "w").write("\n".join(lines) + "\n")
     return i + 1
@@ -171,21 +174,24 @@ def trace_check(chk, kinds, events, what, seed_off=0, nr=4):
     """record traces on the real crate, validate them (and a corrupted copy) with TLC"""
     build_harness("hcore")
     jobs = []
-    for (k, n, m) in kinds:
-        for key in KEY_OF.get((k, n, m), []):
-            def job(k=k, n=n, m=m, key=key):
+    for kind in kinds:
+        (k, n, m), inner = kind[:3], (kind[3] if len(kind) > 3 else None)
+        # nested types: one f64 configuration, the key spelt like the registry's
+        keys = ["%s%s<%s>:f64" % (k, ":%d" % n if k.endswith("Vec") else "", inner)] if inner else KEY_OF.get((k, n, m), [])
+        for key in keys:
+            def job(k=k, n=n, m=m, key=key, inner=inner):
                 d = os.path.join(WORK, "trace_" + key.replace(":", "_"))
                 os.makedirs(d, exist_ok=True)
                 path = os.path.join(d, "trace.ndjson")
                 info = run_harness("hcore", ["emit", "--type", key, "--kind", k, "--n", str(n), "--m", str(m), "--seed",
                                              str(seed() * 1000 + seed_off), "--events", str(events), "--nr", str(nr),
-                                             "--out", path])
+                                             "--out", path] + (["--inner", inner] if inner else []))
                 mant = 24 if key.endswith("f32") else 53
                 tag = "tv_" + key.replace(":", "_")
-                res, done, rej = validate_trace(path, k, n, m, nr, mant, tag)
+                res, done, rej = validate_trace(path, k, n, m, nr, mant, tag, inner)
                 bad = path + ".corrupt"
                 line = corrupt_trace(path, bad)
-                res2, done2, rej2 = validate_trace(bad, k, n, m, nr, mant, tag + "_corrupt") if line else (None, None, None)
+                res2, done2, rej2 = validate_trace(bad, k, n, m, nr, mant, tag + "_corrupt", inner) if line else (None, None, None)
                 return key, path, info, res, done, rej, line, rej2
             jobs.append(job)
     for key, path, info, res, done, rej, line, rej2 in parallel(jobs, max_par=6):
